@@ -24,6 +24,34 @@ def main():
         from . import c07
 
         c07.main()
+    elif pid == "C04":
+        from . import c04
+
+        c04.main()
+    elif pid == "C15":
+        from . import accessors
+
+        accessors.main_c15()
+    elif pid == "C12":
+        from . import accessors
+
+        accessors.main_c12()
+    elif pid == "C18":
+        from . import accessors
+
+        accessors.main_c18()
+    elif pid in ("C08", "C10", "C11"):
+        from . import jsonprops
+
+        getattr(jsonprops, "main_" + pid.lower())()
+    elif pid == "C05":
+        from . import relational
+
+        relational.main_c05()
+    elif pid == "C06":
+        from . import relational
+
+        relational.main_c06()
     else:
         print("no check registered for %s" % pid)
         sys.exit(3)
